@@ -9,7 +9,7 @@ from ..model import AnalysisError, norm
 from ..rules import exc, snap
 from ..rules.defuse import DefUse
 from ..rules.exc import ExcEngine
-from ..rules.util import callee_name, calls_in, cfg_of, nodes_where
+from ..rules.util import callee_name, calls_in, cfg_of, node_exprs, nodes_where
 
 EXPLANATION = (
     "Decided (necessary structural conditions of C14): (1) SNAP: Signals.emit iterates a snapshot of the handler list (handlers and weak-reference callbacks edit the list in place); "
@@ -19,7 +19,7 @@ EXPLANATION = (
     "(5) emit visits every handler: the dispatch is a plain loop with no early exit or short-circuit, the result is accumulated and returned; (7) disconnect() identifies the handler by every field connect() stores except the key; (6) ALIAS: the handler list registered for (sender, signal) is only edited in place and never replaced - connect() holds an alias to it across the creation of the weak references, whose callbacks may disconnect at that very moment."
     ' Added after seed round 3: (8) _prepare_user_args returns tuples it built itself (a snapshot of the connect-time arguments).'
     " Round 4: (9) callbacks are compared by equality, never identity; (10) MetaSignals.__init__ extends only the class's own signal list (from the class dict) or a fresh one."
-    " Round-4 triage: (11) every loop over a handler list whose body compares (==) or calls iterates a snapshot - emit and disconnect; every dereferenced weak reference in the module is tested by identity with None (a live sender may be falsy). Round 5: (12) disconnect() by arguments ends its search at the first match. Round 7: (12) ... and removes the match by key, never by an index counted on the snapshot it iterates; (13) SENTINEL: the deprecated user_arg is tested against None by identity before it is passed on."
+    " Round-4 triage: (11) every loop over a handler list whose body compares (==) or calls iterates a snapshot - emit and disconnect; every dereferenced weak reference in the module is tested by identity with None (a live sender may be falsy). Round 5: (12) disconnect() by arguments ends its search at the first match. Round 7: (12) ... and removes the match by key, never by an index counted on the snapshot it iterates; (13) SENTINEL: the deprecated user_arg is tested against None by identity before it is passed on; (14) ATOMIC: handler lists are edited in single list operations, never rewritten from a traversal of themselves (a GC-run weak-argument disconnect re-enters between bytecodes; fix 543d613)."
 )
 NOT_DECIDED = "Call order and argument order for all histories (list semantics), garbage-collection timing, behaviour for handlers connected/disconnected mid-emit beyond 'handlers that stay connected are called once'."
 ASSUMPTIONS = []
@@ -210,6 +210,47 @@ def rule_emit_total(ctx: Ctx) -> RuleResult:
         rr.add(finding("ORDER", em, rets[0] if rets else em.node, "emit does not return the value accumulated over all handlers", construct="accumulator not returned"))
     if not acc and not any(isinstance(e, ast.GeneratorExp) for c in calls for e in _enclosing(em, c)):
         rr.add(finding("ORDER", em, em.node, "handler results are not accumulated with `|=` over all handlers", construct="no accumulation"))
+    return rr
+
+
+def rule_single_step_edits(ctx: Ctx) -> RuleResult:
+    """A weak argument's reference callback calls disconnect_by_key() whenever the garbage collector happens to run -
+    between any two bytecodes of a method that is editing the very same handler list.  An edit is therefore safe
+    only as a single list operation (append / remove / pop / del of one element); a read-modify-write
+    `handlers[:] = [h for h in handlers if ...]` traverses the list while it may shrink under it (an element is
+    skipped: a live handler is lost) and writes back what it read before (a handler the re-entrant call removed
+    is back).  Every store into a handler list in Signals whose value is computed from a traversal of that same
+    list is reported; the single-step edits are counted.  Before fix 543d613 disconnect_by_key() was such a store."""
+    from ..rules.defuse import DefUse
+
+    p = ctx.p
+    rr = RuleResult("ATOMIC", "C14.14", "handler lists are edited in single list operations, never by writing back a filtered traversal of the same list", floor=2)
+    cls = p.cls(SIG)
+    for fi in p.all_class_functions(cls):
+        dfu = DefUse(fi)
+
+        def is_handler_list(e, at):
+            x = ast.unparse(dfu.expand(e, at)) if at is not None else ast.unparse(e)
+            return "_signal_attr" in x
+
+        for n in fi.own_nodes():
+            if isinstance(n, ast.Call) and isinstance(n.func, ast.Attribute) and n.func.attr in ("append", "remove", "pop", "insert") and isinstance(n.func.value, ast.Name):
+                at = next((c for c in dfu.cfg.nodes for e in node_exprs(c) for x in walk_no_nested(e) if x is n), None)
+                if at is not None and is_handler_list(n.func.value, at):
+                    rr.inst(f"{short(fi)}: {norm(n, 40)}", True, {"site": f"{short(fi)}: {norm(n, 60)}", "edit": "single step"})
+            if isinstance(n, (ast.Assign, ast.AugAssign)):
+                tgts = n.targets if isinstance(n, ast.Assign) else [n.target]
+                for t in tgts:
+                    base = t.value if isinstance(t, ast.Subscript) and isinstance(t.slice, ast.Slice) else None
+                    if base is None or not isinstance(base, ast.Name):
+                        continue
+                    at = dfu.node_of(n)
+                    if at is None or not is_handler_list(base, at):
+                        continue
+                    reads_self = any(isinstance(x, ast.Name) and x.id == base.id and isinstance(x.ctx, ast.Load) for x in ast.walk(n.value))
+                    rr.inst(f"{short(fi)}: {norm(n, 40)}", True, {"site": f"{short(fi)}: {norm(n, 60)}", "edit": "write-back of a traversal" if reads_self else "slice store"})
+                    if reads_self:
+                        rr.add(finding("ATOMIC", fi, n, f"`{norm(n, 70)}` reads the handler list `{base.id}` and writes the result back: a garbage collection between the two (any bytecode boundary of the traversal) runs a dead weak argument's disconnect_by_key() on the same list - the traversal skips the element after the removed one (a live handler is dropped) and the write-back restores the removed one", construct=f"{fi.name}: handler list rewritten from a traversal of itself"))
     return rr
 
 
@@ -540,6 +581,7 @@ def run(ctx: Ctx):
         rule_meta_fresh(ctx),
         rule_emit_total(ctx),
         rule_list_identity(ctx),
+        rule_single_step_edits(ctx),
         rule_disconnect_fields(ctx),
         rule_foreign_code(ctx),
         rule_disconnect_one(ctx),
@@ -552,6 +594,8 @@ from ..mutants import Mut  # noqa: E402
 
 _F = "urwid/signals.py"
 MUTANTS = [
+    Mut("disconnect-by-key-rewrites-list", "urwid/signals.py", "Signals.disconnect_by_key", "        for h in list(handlers):\n            if h[0] is key:\n                with contextlib.suppress(ValueError):\n                    handlers.remove(h)\n", "        handlers[:] = [h for h in handlers if h[0] is not key]\n", "ATOMIC|signals.Signals.disconnect_by_key|disconnect_by_key: handler list rewritten from a traversal of itself"),
+    Mut("disconnect-by-key-filter-writeback", "urwid/signals.py", "Signals.disconnect_by_key", "        for h in list(handlers):\n            if h[0] is key:\n                with contextlib.suppress(ValueError):\n                    handlers.remove(h)\n", "        handlers[:] = list(filter(lambda h: h[0] is not key, handlers))\n", "ATOMIC|signals.Signals.disconnect_by_key|disconnect_by_key: handler list rewritten from a traversal of itself"),
     Mut("disconnect-by-snapshot-index", "urwid/signals.py", "Signals.disconnect", "        for h in list(handlers):  # comparing may run foreign code (__eq__, weak reference callbacks)\n            if h[1:] == (callback, user_arg, user_args):\n                return self.disconnect_by_key(obj, name, h[0])\n", "        for index, h in enumerate(list(handlers)):\n            if h[1:] == (callback, user_arg, user_args):\n                del handlers[index]\n                return None\n", "PASS|signals.Signals.disconnect|handler removed by snapshot index"),
     Mut("user-arg-dropped-when-falsy", "urwid/signals.py", "Signals._call_callback", "(user_arg,) if user_arg is not None else ()", "(user_arg,) if user_arg else ()", "SENTINEL|signals.Signals._call_callback|user_arg tested for truthiness"),
     Mut("weak-arg-callback-partial-holds-sender", "urwid/signals.py", "Signals.connect", "        user_args = self._prepare_user_args(weak_args, user_args, weakref_callback)", "        import functools\n\n        user_args = self._prepare_user_args(weak_args, user_args, functools.partial(self.disconnect_by_key, obj, name, key))", "CLOS|signals.Signals.connect|strong capture of obj"),
@@ -571,9 +615,9 @@ MUTANTS = [
     Mut("liveness-by-truthiness", _F, "Signals._call_callback", "if real_arg is not None:", "if real_arg:", "PASS|"),
     Mut("emit-short-circuit", _F, "Signals.emit", "result |= self._call_callback(", "result = result or self._call_callback(", "ORDER|"),
     Mut("emit-early-return", _F, "Signals.emit", "result |= self._call_callback(callback, user_arg, weak_args, user_args, args)", "if self._call_callback(callback, user_arg, weak_args, user_args, args):\n                return True", "ORDER|"),
-    Mut("disconnect-by-key-raises", _F, "Signals.disconnect_by_key", "handlers[:] = [h for h in handlers if h[0] is not key]", "handlers.remove(next(h for h in handlers if h[0] is key))", "EXC|"),
+    Mut("disconnect-by-key-raises", _F, "Signals.disconnect_by_key", "        for h in list(handlers):\n            if h[0] is key:\n                with contextlib.suppress(ValueError):\n                    handlers.remove(h)\n", "        handlers.remove(next(h for h in handlers if h[0] is key))\n", "EXC|"),
     Mut("connect-append-before-check", _F, "Signals.connect", "raise NameError(f\"No such signal {name!r} for object {obj!r}\")", "pass", ("EXC|", "ORDER|")),
-    Mut("handler-list-replaced", _F, "Signals.disconnect_by_key", "handlers = setdefaultattr(obj, self._signal_attr, {}).get(name, [])\n        handlers[:] = [h for h in handlers if h[0] is not key]", "signals = setdefaultattr(obj, self._signal_attr, {})\n        if name in signals:\n            signals[name] = [h for h in signals[name] if h[0] is not key]", "ALIAS|"),
+    Mut("handler-list-replaced", _F, "Signals.disconnect_by_key", "        for h in list(handlers):\n            if h[0] is key:\n                with contextlib.suppress(ValueError):\n                    handlers.remove(h)\n", "        signals = setdefaultattr(obj, self._signal_attr, {})\n        if name in signals:\n            signals[name] = [h for h in signals[name] if h[0] is not key]\n", "ALIAS|"),
     Mut("disconnect-ignores-user-arg", _F, "Signals.disconnect", "        for h in list(handlers):  # comparing may run foreign code (__eq__, weak reference callbacks)\n            if h[1:] == (callback, user_arg, user_args):\n                return self.disconnect_by_key(obj, name, h[0])", "        for key, h_callback, _h_user_arg, h_user_args in list(handlers):\n            if h_callback == callback and h_user_args == user_args:\n                return self.disconnect_by_key(obj, name, key)", "TAB|signals.Signals.disconnect"),
     Mut("twin-tuple-snapshot", _F, "Signals.emit", "in list(handlers):", "in tuple(handlers):", twin=True),
     Mut("twin-rename-accumulator", _F, "Signals.emit", "result = False", "result = False  # accumulator", twin=True),
